@@ -152,8 +152,33 @@ fn constvalue_json<'tcx>(tcx: TyCtxt<'tcx>, cv: ConstValue, ty: Ty<'tcx>, depth:
                 _ => scalar_int_json(ty, si),
             }
         }
-        ConstValue::Scalar(Scalar::Ptr(..)) => match ty.kind() {
-            ty::Ref(..) | ty::RawPtr(..) => o(vec![("ptr", s(ty))]),
+        ConstValue::Scalar(Scalar::Ptr(ptr, _)) => match ty.kind() {
+            ty::Ref(_, inner, _) => {
+                // byte strings (&[u8; N]): format_args! templates and b"..." literals
+                if let ty::Array(elem, ct_len) = inner.kind() {
+                    if let ty::Uint(ty::UintTy::U8) = elem.kind() {
+                        if let Some(len) = ct_len.try_to_target_usize(tcx) {
+                            let (prov, offset) = ptr.prov_and_relative_offset();
+                            if let Some(rustc_middle::mir::interpret::GlobalAlloc::Memory(alloc)) =
+                                tcx.try_get_global_alloc(prov.alloc_id())
+                            {
+                                let range = rustc_middle::mir::interpret::AllocRange {
+                                    start: offset,
+                                    size: rustc_abi::Size::from_bytes(len),
+                                };
+                                if let Ok(bytes) = alloc.inner().get_bytes_strip_provenance(&tcx, range) {
+                                    return o(vec![(
+                                        "bytes",
+                                        J::A(bytes.iter().map(|b| J::U(*b as u128)).collect()),
+                                    )]);
+                                }
+                            }
+                        }
+                    }
+                }
+                o(vec![("ptr", s(ty))])
+            }
+            ty::RawPtr(..) => o(vec![("ptr", s(ty))]),
             _ => destructure_json(tcx, cv, ty, depth),
         },
         ConstValue::ZeroSized => match ty.kind() {
